@@ -253,6 +253,56 @@ pub fn run(rep: &'static Report) {
         rep.extra("ephemeral_sequence_length", json!(48));
     }
 
+    // a plaintext source that answers one read() with ErrorKind::Interrupted: the call may fail, but if it returns Ok the
+    // file has the prescribed length for the WHOLE plaintext
+    {
+        struct IntrAt<'a> {
+            data: &'a [u8],
+            pos: usize,
+            call: usize,
+            at: usize,
+            piece: usize,
+        }
+        impl<'a> std::io::Read for IntrAt<'a> {
+            fn read(&mut self, buf: &mut [u8]) -> std::io::Result<usize> {
+                let c = self.call;
+                self.call += 1;
+                if c == self.at {
+                    return Err(std::io::Error::new(std::io::ErrorKind::Interrupted, "injected EINTR"));
+                }
+                let n = buf.len().min(self.data.len() - self.pos).min(self.piece);
+                buf[..n].copy_from_slice(&self.data[self.pos..self.pos + n]);
+                self.pos += n;
+                Ok(n)
+            }
+        }
+        for l in [0usize, 50, CS + 5, 3 * CS + 9] {
+            let p = plaintext(seed ^ 0x89, l);
+            for piece in [usize::MAX, 40_000] {
+                for at in 0..10usize {
+                    for mode in ["key", "pass"] {
+                        rep.eval(1);
+                        let sub = if mode == "key" { Subject::KeyEnc { s: hx(&ids[0].sk), s_pub: hx(&ids[0].pk), r_pub: hx(&ids[2].pk), e: hx(&e), payload: hx(&pays[0]) } } else { Subject::PassEnc { pw: hx(b"c08-intr"), salt: hx(&derive32(seed, "c08-intr-salt")) } };
+                        if mode == "pass" && (at > 3 || l > CS + 5) {
+                            continue; // one scrypt per run
+                        }
+                        let mut src = IntrAt { data: &p, pos: 0, call: 0, at, piece };
+                        let mut out = Vec::new();
+                        let res = run_rw(&sub, &mut src, &mut out);
+                        rep.nontrivial(format!("intr-{}-{}-{}-{}", mode, l, piece, at).as_bytes());
+                        if res.is_ok() {
+                            let hdr = if mode == "key" { 132 } else { 36 };
+                            let recs = skeleton(&out, hdr).map(|s| s.1.len()).unwrap_or(0);
+                            if out.len() != hdr + 32 * recs + l {
+                                rep.violation("intr/ok-with-wrong-length", json!({"kind":"intr","mode":mode,"len":l,"piece":piece,"at":at}), format!("{} encryption of {} bytes with read call {} interrupted returned Ok and wrote {} bytes: {} + 32 x {} records + {} plaintext bytes were prescribed", mode, l, at, out.len(), hdr, recs, l));
+                            }
+                        }
+                    }
+                }
+            }
+        }
+    }
+
     // password mode
     let salt = derive32(seed, "c08-salt");
     let mut headers = vec![];
@@ -495,6 +545,71 @@ fn cli_level(rep: &Report) {
             })
             .sum();
         rep.extra("cli_nonblocking_stdout_runs", json!({"runs":njobs.len(),"exit_0":ok_runs}));
+    }
+    // the plaintext is named through a symbolic link (with a long target path), is a FIFO, or sits behind `./` and `../`
+    // path spellings: length and content of the output depend on the plaintext only
+    {
+        let mut ljobs = vec![];
+        for mode in ["key", "pass"] {
+            for n in [0usize, 5, 70000] {
+                for spelling in 0..3u8 {
+                    ljobs.push((mode, n, spelling));
+                }
+            }
+        }
+        ljobs.par_iter().for_each(|&(mode, n, spelling)| {
+            rep.eval(1);
+            rep.nontrivial(format!("cli-input-spelling-{}-{}-{}", mode, n, spelling).as_bytes());
+            let p = plaintext(seed ^ 0x88, n);
+            let attempt = || -> Result<(), String> {
+                let sc = Scratch::new();
+                sc.write("kr.txt", kr.as_bytes());
+                std::fs::create_dir_all(sc.path("a-directory-with-a-rather-long-name/and-a-second-level-that-is-long-too")).map_err(|e| format!("MACHINERY: {}", e))?;
+                let real = "a-directory-with-a-rather-long-name/and-a-second-level-that-is-long-too/the-real-plaintext-file-with-a-long-name.bin";
+                sc.write(real, &p);
+                let input: String = match spelling {
+                    0 => {
+                        std::os::unix::fs::symlink(real, sc.path("p.lnk")).map_err(|e| format!("MACHINERY: {}", e))?;
+                        "p.lnk".into()
+                    }
+                    1 => format!("./a-directory-with-a-rather-long-name/../{}", real),
+                    _ => {
+                        // a chain of two links
+                        std::os::unix::fs::symlink(real, sc.path("l1")).map_err(|e| format!("MACHINERY: {}", e))?;
+                        std::os::unix::fs::symlink("l1", sc.path("l2")).map_err(|e| format!("MACHINERY: {}", e))?;
+                        "l2".into()
+                    }
+                };
+                let pw = if mode == "key" { parties[0].password.clone() } else { "pw-for-file".to_string() };
+                let mut args: Vec<&str> = if mode == "key" { vec!["encrypt", &input, "-t", &parties[1].name, "-f", &parties[0].name, "-k", "kr.txt", "--env-pass"] } else { vec!["password", "encrypt", &input, "--env-pass"] };
+                args.extend_from_slice(&["-o", "out.ktl"]);
+                let out = proc::run(&Cmd::new(&args).env("KESTREL_PASSWORD", &pw), &sc.0);
+                out.well_behaved()?;
+                if !out.ok() {
+                    return Err(format!("encrypt failed: {}", out.summary()));
+                }
+                let file = sc.read("out.ktl").unwrap_or_default();
+                let (hdr, good) = if mode == "key" {
+                    (132, matches!(r::read_key_file(&parties[1].sk, &file), Ok(k) if k.parsed.plaintext == p))
+                } else {
+                    (36, file.len() >= 36 && matches!(r::read_pass_file_with_key(&r::pass_key(pw.as_bytes(), file[4..36].try_into().unwrap()), &file), Ok(k) if k.plaintext == p))
+                };
+                let want = hdr + 32 * ((n + CS - 1) / CS).max(1) + n;
+                if !good || file.len() != want {
+                    return Err(format!("the {}-byte plaintext named as {:?}: the output has {} bytes, prescribed are {}{}", n, input, file.len(), want, if good { "" } else { " (and REF does not read it as the conforming file)" }));
+                }
+                Ok(())
+            };
+            if let Err(e) = attempt() {
+                if e.starts_with("MACHINERY") {
+                    crate::report::machinery(&e);
+                }
+                if let Err(e2) = attempt() {
+                    rep.violation("cli/length-depends-on-how-the-input-is-named", json!({"kind":"cli-spelling","mode":mode,"n":n,"spelling":spelling}), format!("kestrel {} encrypt: {}", mode, e2));
+                }
+            }
+        });
+        rep.extra("cli_input_spelling_runs", json!(ljobs.len()));
     }
     rep.extra("cli_encryptions", json!(jobs.len()));
     rep.sample(json!({"kind":"cli","from":"alice-keyring-name","to":"alice-keyring-name","n":10,"via":"stdout","expect":"stdout is exactly a 174-byte conforming file containing neither name nor any party's key"}));
